@@ -2,7 +2,10 @@
 
 #include "QXmppSasl2UserAgent.h"
 
+#include "QXmppCredentials.h"
+
 #include <QUuid>
+#include <QXmlStreamReader>
 
 namespace sim {
 
@@ -30,6 +33,18 @@ QXmppConfiguration SessionWorld::configFromPlan(const Plan &p)
     }
     if (p.knob(QStringLiteral("userAgent"), 0)) {
         c.setSasl2UserAgent(QXmppSasl2UserAgent(QUuid(QStringLiteral("{d4565fa7-4d72-4749-b3d3-740edbf87770}")), QStringLiteral("qxsim"), QStringLiteral("simulated device")));
+    }
+    if (!p.sknob(QStringLiteral("fastToken")).isEmpty()) {
+        // a FAST token obtained in an earlier session, restored the way an application restores it
+        const QString xml = QStringLiteral("<credentials xmlns=\"org.qxmpp.credentials\"><ht-token mechanism=\"%1\" secret=\"%2\" expiry=\"2031-01-01T00:00:00Z\"/></credentials>")
+                                .arg(p.sknob(QStringLiteral("fastTokenMech"), QStringLiteral("HT-SHA-256-NONE")), p.sknob(QStringLiteral("fastToken")));
+        QXmlStreamReader r(xml);
+        r.readNextStartElement();
+        if (auto creds = QXmppCredentials::fromXml(r)) {
+            const QString pw = c.password();
+            c.setCredentials(*creds);
+            c.setPassword(pw);
+        }
     }
     c.setAutoReconnectionEnabled(p.knob(QStringLiteral("autoReconnect"), 1));
     c.setKeepAliveInterval((int)p.knob(QStringLiteral("keepAliveInterval"), 60));
